@@ -355,9 +355,31 @@ class PVLParser(object):
                             if not keep_parsing:
                                 raise ve
                         except Exception:
-                            raise ve
+                            # The Begin-Aggregation-Statement (and maybe
+                            # more) has been consumed, so the tokens
+                            # cannot be handed to another production:
+                            # the block was not closed properly.
+                            self._fatal(
+                                tokens,
+                                f'While parsing the block "{begin} = '
+                                f'{block_name}": {ve}',
+                            )
 
         return block_name, agg
+
+    @staticmethod
+    def _fatal(tokens: abc.Generator, msg: str):
+        """Throws a ValueError into *tokens*, so that it surfaces as a
+        LexerError that knows where in the text parsing stopped.  If
+        *tokens* is already exhausted, a ParseError is raised instead.
+        """
+        try:
+            tokens.throw(ValueError, msg)
+        except LexerError:
+            raise
+        except ValueError:
+            pass
+        raise ParseError(msg)
 
     def parse_around_equals(self, tokens: abc.Generator) -> None:
         """Parses white space and comments on either side
